@@ -117,6 +117,43 @@ def is_buf_elem(t, idx_pred=None):
     return False
 
 
+_LEN = {}
+
+
+def length_local(P):
+    """the payload-length variable of DataTelegram::deserialize by role (whatever it is called): the multi-definition local L of the
+    total-length test `buffer.len() < L + 6`"""
+    if id(P) in _LEN:
+        return _LEN[id(P)]
+    res = None
+    f = P.get(CR, "fdl::telegram::DataTelegram::<'a>::deserialize") or (P.fn(CR, "fdl::telegram::DataTelegram::deserialize") if P is not None else None)
+    if f is not None:
+        tb = TermBuilder(f, P)
+        cands = set()
+        for b, i, s in stmts(f):
+            rv = s.get("rv") if "a" in s else None
+            if rv and "bin" in rv and rv["bin"].startswith("Add"):
+                x, y = strip_casts(tb.joperand(rv["a"])), strip_casts(tb.joperand(rv["b"]))
+                for u, v in ((x, y), (y, x)):
+                    if u[0] == "local" and v == ("const", 6):
+                        cands.add(u[1])
+        if len(cands) == 1:
+            res = next(iter(cands))
+    _LEN[id(P)] = res
+    return res
+
+
+_CUR = {"P": None}
+
+
+def is_length(t):
+    t = strip_casts(t) if isinstance(t, tuple) else t
+    L = length_local(_CUR["P"]) if _CUR["P"] is not None else None
+    if L is not None:
+        return isinstance(t, tuple) and len(t) > 1 and t[0] == "local" and t[1] == L
+    return (path_str(t) or "") == "length"
+
+
 def idx_const(k):
     return lambda i: i == ("const", k)
 
@@ -125,10 +162,10 @@ def idx_len_plus(k):
     """index == length (+k) where `length` is the payload length local"""
     def m(i):
         if k == 0:
-            return (path_str(i) or "") == "length"
+            return is_length(i)
         if i[0] == "field" and i[1][0] == "bin":
             i = i[1]
-        return i[0] == "bin" and i[1].startswith("Add") and any((path_str(x) or "") == "length" for x in (i[2], i[3])) and ("const", k) in (i[2], i[3])
+        return i[0] == "bin" and i[1].startswith("Add") and any(is_length(x) for x in (i[2], i[3])) and ("const", k) in (i[2], i[3])
     return m
 
 
@@ -162,6 +199,7 @@ def check(ctx):
 
 
 def check_totality(ctx, P):
+    _CUR["P"] = P
     """clauses a.totality / a.length (also used by C05 for the decoder part of poll())"""
     fns = []
     for n in DECODERS:
@@ -231,6 +269,7 @@ def check_totality(ctx, P):
 
 
 def check_accept_and_verdicts(ctx, P, tele, data, token):
+    _CUR["P"] = P
     # ---------------- b: acceptance guards -----------------------------------------------------
     g = GuardAnalysis(data, P)
     tb = g.tb
@@ -325,6 +364,7 @@ def discharge_panic_call(ctx, P, f, b, c, tele):
 
 
 def check_checksum_range(ctx, P, data, tb):
+    _CUR["P"] = P
     n = 0
     for b, c in call_sites(data, lambda c: "fold" in (c.get("callee") or "") or fcs_helper(P, c.get("callee") or "")):
         t = tb.joperand(c["args"][0])
@@ -341,7 +381,7 @@ def check_checksum_range(ctx, P, data, tb):
                     if end[0] == "field" and end[1][0] == "bin":
                         end = end[1]
                     starts_at_da = rng0[0] == "agg" and str(rng0[1]).endswith("RangeFrom") and rng0[3][0] == ("const", 1)
-                    spans = end[0] == "bin" and end[1].startswith("Add") and ("const", 3) in (end[2], end[3]) and any((path_str(x) or "") == "length" for x in (end[2], end[3]))
+                    spans = end[0] == "bin" and end[1].startswith("Add") and ("const", 3) in (end[2], end[3]) and any(is_length(x) for x in (end[2], end[3]))
                     ok = starts_at_da and spans
         ctx.ob("b.accept", "checksum-range", ok,
                "the checksum must be folded over buffer[1..][..length+3] (DA, SA, FC, SAPs, PDU); found " + s[:200], data.loc(b))
@@ -374,6 +414,7 @@ _P = [None]
 
 
 def closed_world(ctx, P, tele, data, token):
+    _CUR["P"] = P
     _P[0] = P
     nnone = nerr = 0
     # ---- Telegram::deserialize
@@ -433,7 +474,7 @@ def data_none(fs):
     r = b[1]
     if r[0] == "field" and r[1][0] == "bin":
         r = r[1]
-    return r[0] == "bin" and r[1].startswith("Add") and ("const", 6) in (r[2], r[3]) and any((path_str(x) or "") == "length" for x in (r[2], r[3]))
+    return r[0] == "bin" and r[1].startswith("Add") and ("const", 6) in (r[2], r[3]) and any(is_length(x) for x in (r[2], r[3]))
 
 
 def data_err(fs):
@@ -450,8 +491,8 @@ def data_err(fs):
     if has(lambda k: k[0] == "discr" and M.t_call("from_byte")(strip_refs(k[1])), {"Err"}):
         return "function code invalid"
     # SAP announced by the extension bit but no room in LE
-    lt1 = M.key_cmp("lt", M.t_path("length"), M.t_const(1))
-    eq0 = M.key_cmp("eq", M.t_path("length"), M.t_const(0))
+    lt1 = M.key_cmp("lt", is_length, M.t_const(1))
+    eq0 = M.key_cmp("eq", is_length, M.t_const(0))
     if (has(lt1, {True}) or has(eq0, {True})) and any(
             k[0] == "cmp" and k[1] == "eq" and "BitAnd" in show(k) and vs == ("in", frozenset([False])) for k, vs in fs.items()):
         return "extension bit set but LE leaves no room for the SAP"
